@@ -133,10 +133,89 @@ def e4_parts(prop_arg, cases, max_len):
     return [e4_part(prop_arg, cases, max_len, False), e4_part(prop_arg, cases, max_len, True)]
 
 
+E3_CONFIGS = {
+    # name: (target dir, release, features)
+    "A": ("target_a", False, ["hooks"]),
+    "B": ("target_b", True, []),
+    "C": ("target_c", True, ["hooks"]),
+}
+E3_DEFS = dict(quick=48, thorough=256)
+
+
+def gen_dir(tier, sd=None):
+    return os.path.join(WORK, "gen", "%s-%s" % (tier, seed() if sd is None else sd))
+
+
+def e3_generate(tier, exclude=(), sd=None):
+    exe = cargo_build("e2_genstage")
+    d = gen_dir(tier, sd)
+    os.makedirs(d, exist_ok=True)
+    cmd = [exe, "gen", str(E3_DEFS[tier]), d]
+    if exclude:
+        cmd.append(",".join(str(k) for k in sorted(exclude)))
+    rc, out = run(cmd, timeout=1200, extra_env=None if sd is None else {"VERIF_SEED": str(sd)})
+    if rc != 0:
+        raise Inconclusive("e2_genstage failed (rc %s):\n%s" % (rc, out[-3000:]))
+    return d
+
+
+def e3_build(tier, config, sd=None):
+    """Generates the batch of definitions and builds the driver around it. Modules that do not
+    compile are excluded (and returned) so that the other definitions are still examined."""
+    import re
+    target, release, features = E3_CONFIGS[config]
+    excluded = {}
+    for _round in range(4):
+        d = e3_generate(tier, excluded.keys(), sd)
+        try:
+            exe = cargo_build("e3_gencrate", target_dir=target, release=release, features=features, extra_env={"VERIF_GEN_DIR": d})
+            return exe, d, excluded
+        except Inconclusive as e:
+            msg = str(e)
+            bad_def = set(int(k) for k in re.findall(r"def_(\d+)\.rs", msg))
+            bad_glue = set(int(k) for k in re.findall(r"glue_(\d+)\.rs", msg))
+            new = (bad_def | bad_glue) - set(excluded)
+            if not new:
+                raise
+            for k in new:
+                excluded[k] = ("def" if k in bad_def else "glue", msg[-1500:])
+    raise Inconclusive("generated modules keep failing to compile: %s" % sorted(excluded))
+
+
+def e3_part(prop_arg, config, cases):
+    def f(tier):
+        exe, d, excluded = e3_build(tier, config)
+        if len(excluded) > E3_DEFS[tier] // 4:
+            raise Inconclusive("%d of %d generated modules do not compile (see C13): %s" % (len(excluded), E3_DEFS[tier], sorted(excluded)))
+        os.makedirs(WORK, exist_ok=True)
+        out = os.path.join(WORK, "e3_%s_%s_%s.json" % (prop_arg, config, os.getpid()))
+        salt = {"A": 0, "B": 0xB0B, "C": 0xC0C}[config]
+        r = run_engine([exe, "run", prop_arg, str(cases[tier]), out], out, "e3_gencrate(%s) run %s" % (config, prop_arg),
+                       extra_env={"VERIF_SEED": str(seed() ^ salt)})
+        r.setdefault("property", prop_arg)
+        r["part"] = "e3:%s:%s" % (prop_arg, {"A": "debug+hooks", "B": "release", "C": "release+hooks"}[config])
+        r["replay_engine"] = "e3-" + config
+        r["replay_extra"] = {"gen_seed": seed(), "run_seed": seed() ^ salt, "tier_defs": E3_DEFS[tier], "config": config}
+        if excluded:
+            r.setdefault("notes", []).append("generated modules excluded because they do not compile: %s" % sorted(excluded))
+        return r
+    return f
+
+
+def e3_parts(prop_arg, configs, cases):
+    return [e3_part(prop_arg, c, cases) for c in configs]
+
+
 PROPERTIES = {
     "C01": dict(level="exploration", parts=[e1_part("C01", dict(quick=100000, thorough=2000000))]),
-    "C02": dict(level="exploration", parts=[e1_part("C02", dict(quick=100000, thorough=2000000))]),
-    "C03": dict(level="exploration", parts=[e1_part("C03", dict(quick=100000, thorough=2000000))]),
+    "C02": dict(level="exploration", parts=[e1_part("C02", dict(quick=100000, thorough=2000000))] + e3_parts("C02", "B", dict(quick=20000, thorough=200000))),
+    "C03": dict(level="exploration", parts=[e1_part("C03", dict(quick=100000, thorough=2000000))] + e3_parts("C03", "B", dict(quick=100000, thorough=1500000))),
+    "C04": dict(level="exploration", parts=e3_parts("C04", "AB", dict(quick=150000, thorough=2500000))),
+    "C05": dict(level="exploration", parts=e3_parts("C05", "AB", dict(quick=150000, thorough=2500000))),
+    "C06": dict(level="exploration", parts=e3_parts("C06", "AB", dict(quick=150000, thorough=2500000))),
+    "C07": dict(level="exploration", parts=e3_parts("C07", "AC", dict(quick=150000, thorough=2500000))),
+    "C15": dict(level="exploration", parts=e3_parts("C15", "AB", dict(quick=150000, thorough=2500000))),
+    "C16": dict(level="exploration", parts=e3_parts("C16", "AB", dict(quick=150000, thorough=2500000))),
     "C08": dict(level="exploration", parts=e4_parts("C08", dict(quick=60000, thorough=1500000), dict(quick=8, thorough=12))),
     "C09": dict(level="fault_enumeration", parts=e4_parts("C09", dict(quick=60000, thorough=1500000), dict(quick=8, thorough=11))),
     "C10": dict(level="exploration", parts=e4_parts("C10", dict(quick=40000, thorough=600000), dict(quick=12, thorough=40))),
@@ -166,6 +245,8 @@ def setup():
         cargo_build("e1_layout")
         cargo_build("e4_vecconv")
         cargo_build("e4_vecconv", release=True)
+        for c in "ABC":
+            e3_build("quick", c)
     except Inconclusive as e:
         print("setup failed:", e)
         return 2
@@ -185,6 +266,15 @@ def replay(prop, path):
             return rc
         if engine in ("e4", "e4-release"):
             exe = cargo_build("e4_vecconv", release=(engine == "e4-release"))
+            rc, out = run([exe, "replay", data.get("replay_property", prop), path], timeout=600)
+            print(out, end="")
+            if rc == 1:
+                print("VIOLATION property=%s replay=%s" % (prop, path))
+            return rc
+        if engine.startswith("e3-"):
+            extra = data.get("replay_extra", {})
+            tier = "thorough" if extra.get("tier_defs") == E3_DEFS["thorough"] else "quick"
+            exe, d, excluded = e3_build(tier, engine[3:], sd=extra.get("gen_seed", data.get("seed", 1)))
             rc, out = run([exe, "replay", data.get("replay_property", prop), path], timeout=600)
             print(out, end="")
             if rc == 1:
@@ -232,7 +322,8 @@ def run_check(prop, tier):
             if k is not None:
                 known_hits.setdefault(k.get("id", k.get("signature")), (k, f))
                 continue
-            body = dict(property=prop, engine=r.get("replay_engine"), part=r.get("part"),
+            body = dict(property=prop, engine=r.get("replay_engine"), part=r.get("part"), replay_extra=r.get("replay_extra"),
+                        definition_index=f.get("definition_index"), definition_history=f.get("definition_history"),
                         replay_property=r.get("property", prop),
                         signature=f.get("signature"), message=f.get("message"), case=f.get("case"),
                         seed=seed(), tier=tier)
